@@ -198,17 +198,26 @@ LastObj(m) == Len(m.heap)
 
 \* The active calls, innermost first.  Every "call" frame of the continuation is one activation boundary: the
 \* callee stands at `site` (or at the call it made), its caller stands at the call node.
+\* natives that run callbacks on a call frame of their own: while one of them is pulling from its source or running
+\* its callback, that frame is an activation like any other ("native:0 in each()")
+NativeOfFrame == [x \in {"c.each", "c.each2", "c.reduce", "c.reduce2", "c.all", "c.all2", "c.any", "c.any2", "c.sort", "c.skip"} |->
+                    CASE x \in {"c.each", "c.each2"} -> "each" [] x \in {"c.reduce", "c.reduce2"} -> "reduce"
+                      [] x \in {"c.all", "c.all2"} -> "all" [] x \in {"c.any", "c.any2"} -> "any"
+                      [] x = "c.sort" -> "sort" [] OTHER -> "skip"]
+
 RECURSIVE ActsFrom(_, _, _)
 ActsFrom(m, i, site) ==
   \* i scans the continuation from the top; site is where the activation currently being described stands
   IF i = 0 THEN <<[n |-> site, f |-> "script"]>>
   ELSE IF m.k[i].f = "call"
        THEN <<[n |-> site, f |-> m.heap[m.k[i].i].name]>> \o ActsFrom(m, i - 1, m.k[i].n)
+       ELSE IF m.k[i].f \in DOMAIN NativeOfFrame
+       THEN <<[n |-> 0, f |-> NativeOfFrame[m.k[i].f]]>> \o ActsFrom(m, i - 1, site)
        ELSE ActsFrom(m, i - 1, site)
 Acts(m, site) == ActsFrom(m, Len(m.k), site)
 
 RECURSIVE CallsBelow(_, _)
-CallsBelow(m, i) == IF i = 0 THEN 0 ELSE (IF m.k[i].f = "call" THEN 1 ELSE 0) + CallsBelow(m, i - 1)
+CallsBelow(m, i) == IF i = 0 THEN 0 ELSE (IF m.k[i].f = "call" \/ m.k[i].f \in DOMAIN NativeOfFrame THEN 1 ELSE 0) + CallsBelow(m, i - 1)
 
 \* a back trace entry as text "@<node>:<function>"; the driver turns it into "path:line in function()"
 \* function names are TLA+ strings; the programs carry their code points in P.names (name -> cp)
